@@ -393,7 +393,7 @@ func runC11E2E(t *testing.T, s C11Scenario) (res Result) {
 			res.failf("HARNESS: %v", err)
 			return
 		}
-		if err := sub.Start(ctx); err != nil {
+		if err := startScoped(sub.Start); err != nil {
 			res.failf("HARNESS: subscriber start: %v", err)
 			return
 		}
@@ -404,7 +404,7 @@ func runC11E2E(t *testing.T, s C11Scenario) (res Result) {
 				res.failf("Subscriber.Stop failed: %v", err)
 				return
 			}
-			if err := sub.Start(ctx); err != nil {
+			if err := startScoped(sub.Start); err != nil {
 				res.failf("Subscriber.Start after Stop failed: %v", err)
 				return
 			}
